@@ -106,6 +106,62 @@ func FactsC11(f *hc.Facts) {
 	} else {
 		f.Missing("guessTries", "crypto.GuessDataWithHash loop")
 	}
+	// the same conditions and slice bounds as Lean definitions the model evaluates
+	tr := func(src string) (string, bool) {
+		t := strings.NewReplacer("len(dataWithHash)", "len", "sha1.Size", "20", "<=", "≤", ">=", "≥", "-", " - ").Replace(src)
+		for _, ch := range t {
+			if !(ch == ' ' || ch == '-' || ch == '+' || ch == '<' || ch == '>' || ch == '≤' || ch == '≥' || (ch >= '0' && ch <= '9') || ch == 'l' || ch == 'e' || ch == 'n' || ch == 'i') {
+				return "", false
+			}
+		}
+		return t, true
+	}
+	emitted := false
+	if a, ok1 := tr(minCond); ok1 && minCond != "" {
+		if b, ok2 := tr(endCond); ok2 && endCond != "" {
+			// v := dataWithHash[:H]; data := dataWithHash[LO : HI]
+			var hSl, lo, hi string
+			okS := false
+			if strings.HasPrefix(vSrc, "dataWithHash[:") && strings.HasSuffix(vSrc, "]") {
+				hSl = strings.TrimSuffix(strings.TrimPrefix(vSrc, "dataWithHash[:"), "]")
+				if strings.HasPrefix(dataSrc, "dataWithHash[") && strings.HasSuffix(dataSrc, "]") {
+					parts := strings.SplitN(strings.TrimSuffix(strings.TrimPrefix(dataSrc, "dataWithHash["), "]"), ":", 2)
+					if len(parts) == 2 {
+						lo, hi = strings.TrimSpace(parts[0]), strings.TrimSpace(parts[1])
+						okS = true
+					}
+				}
+			}
+			h2, o1 := tr(hSl)
+			lo2, o2 := tr(lo)
+			hi2, o3 := tr(hi)
+			if okS && o1 && o2 && o3 {
+				f.Raw("def guessTooShort (len : Nat) : Bool := decide (" + a + ") -- " + minCond)
+				f.Raw("def guessEnd (len i : Nat) : Bool := decide (" + b + ") -- " + endCond)
+				f.Raw("def guessHashLen : Nat := " + h2 + " -- " + vSrc)
+				f.Raw("def guessDataLo : Nat := " + lo2 + " -- " + dataSrc)
+				f.Raw("def guessDataHi (len i : Nat) : Nat := " + hi2 + " -- " + dataSrc)
+				emitted = true
+			}
+		}
+	}
+	if !emitted {
+		f.Missing("guessTooShort", "crypto.GuessDataWithHash: conditions / slices of unexpected shape")
+	}
+	// DecryptExchangeAnswer / EncryptExchangeAnswer: statement order (cipher error, alignment, IGE)
+	dsrc := f.FuncSrc("crypto", "DecryptExchangeAnswer")
+	i1, i2, i3 := strings.Index(dsrc, "aes.NewCipher(key)"), strings.Index(dsrc, alignSrc), strings.Index(dsrc, "ige.DecryptBlocks(cipher, iv, dataWithHash, data)")
+	f.Bool("decryptOrderOK", alignSrc != "" && i1 >= 0 && i1 < i2 && i2 < i3, "DecryptExchangeAnswer: NewCipher error, then alignment error, then ige.DecryptBlocks(cipher, iv, dataWithHash, data)")
+	esrc := f.FuncSrc("crypto", "EncryptExchangeAnswer")
+	j1, j2, j3 := strings.Index(esrc, "aes.NewCipher(key)"), strings.Index(esrc, "DataWithHash(answer, rand)"), strings.Index(esrc, "ige.EncryptBlocks(cipher, iv, dst, answerWithHash)")
+	f.Bool("encryptOrderOK", j1 >= 0 && j1 < j2 && j2 < j3, "EncryptExchangeAnswer: NewCipher error, then DataWithHash, then ige.EncryptBlocks(cipher, iv, dst, answerWithHash)")
+	// DataWithHash: make(paddedLen16(len(data)+sha1.Size)); copy hash; copy data at sha1.Size; random tail
+	wsrc := f.FuncSrc("crypto", "DataWithHash")
+	f.Bool("dataWithHashShape", strings.Contains(wsrc, "dataWithHash := make([]byte, paddedLen16(len(data)+sha1.Size))") &&
+		strings.Contains(wsrc, "h := sha1.Sum(data)") && strings.Contains(wsrc, "copy(dataWithHash, h[:])") &&
+		strings.Contains(wsrc, "copy(dataWithHash[sha1.Size:], data)") &&
+		strings.Contains(wsrc, "io.ReadFull(randomSource, dataWithHash[sha1.Size+len(data):])"),
+		"DataWithHash: SHA1(data) ++ data ++ random up to paddedLen16(len(data)+20)")
 	f.Str("guessMinCond", minCond, "crypto.GuessDataWithHash: too-short test")
 	f.Str("guessEndCond", endCond, "crypto.GuessDataWithHash: end-of-slice test inside the loop")
 	f.Str("guessHashSlice", vSrc, "crypto.GuessDataWithHash: v")
